@@ -52,7 +52,21 @@ def lookup(fn: Any) -> Optional[Callable]:
     slf = getattr(fn, "__self__", None)
     if qn == "int.from_bytes" and slf is int:
         return _int_from_bytes
+    if fn is int.to_bytes:
+        return _int_to_bytes_unbound
     return None
+
+
+class Partial:
+    def __init__(self, fn: Any, args: list, kwargs: dict):
+        self.fn, self.args, self.kwargs = fn, args, kwargs
+
+
+def _int_to_bytes_unbound(it: Any, args: list, kwargs: dict, f: Any) -> Any:
+    recv = args[0]
+    if not ops.has_sym(args) and not ops.has_sym(kwargs):
+        return _concrete(int.to_bytes, args, kwargs)
+    return sym_method(it, recv if is_sym(recv) else SInt(z3.IntVal(recv)), "to_bytes", list(args[1:]), kwargs, f)
 
 
 def _sym_args(args: Any, kwargs: Any) -> bool:
@@ -446,6 +460,14 @@ def _floor(it: Any, args: list, kwargs: dict, f: Any) -> Any:
     return math.floor(v)
 
 
+import functools as _functools
+
+
+@model(_functools.partial)
+def _partial(it: Any, args: list, kwargs: dict, f: Any) -> Any:
+    return Partial(args[0], list(args[1:]), dict(kwargs))
+
+
 @model(divmod)
 def _divmod(it: Any, args: list, kwargs: dict, f: Any) -> Any:
     import ast as _ast
@@ -485,6 +507,8 @@ def sym_method(it: Any, recv: Any, name: str, args: list, kwargs: dict, f: Any) 
         if name == "to_bytes":
             length = args[0] if args else kwargs.get("length", 1)
             order = args[1] if len(args) > 1 else kwargs.get("byteorder", "big")
+            if isinstance(recv, SInt) and z3.is_int_value(recv.t) and not is_sym(length):
+                return recv.t.as_long().to_bytes(length, str(getattr(order, "value", order)))
             order = str(getattr(order, "value", order))
             return ops.int_to_bytes(p, recv, length, order, kwargs.get("signed", False))
         if name == "bit_length":
@@ -657,3 +681,6 @@ def api_function(it: Any, fn: Any, args: list, kwargs: dict, f: Any) -> Any:
     if not _sym_args(args, kwargs):
         return fn(*args, **kwargs)
     raise Unsupported(f"api function {name} on symbolic arguments")
+
+
+from . import extmodels  # noqa: E402,F401  (registers the assumed models of external dependencies)
